@@ -465,6 +465,43 @@ def check(ctx: Ctx) -> None:
         ob.site(f_srv, f_srv.node, "chmod/utime on every complete trip round the content loop", trips=niter)
         ob.require(niter >= 2, "content loop not found")
 
+    with ctx.obligation("C17.i", "idle-target-totals") as ob:
+        # every target sends "list_done" unconditionally, but per-target bookkeeping entries are only created by its
+        # "send" requests: the list_done handler must cope with a target that requested nothing (idle re-sync)
+        fld = repo.func("rsync.RSync._list_done")
+        evl = evaluator(repo, fld)
+        TABLE = ("sym", "self._to_send")
+        CH = ("sym", fld.params()[1])
+        # is the table pre-populated for every target before the request loop?
+        pre = False
+        for (_p, st) in send_paths:
+            for e in st.events:
+                if e.kind == "assign" and e.target == "self._to_send":
+                    v = e.value
+                    pre = (v[0] == "comp" and v[1] == "dictcomp" and v[3] and v[3][0][1] == ("sym", "self._channels")) or \
+                          (v[0] == "fresh" and "defaultdict" in str(v[2])) or (v[0] == "pcall" and "fromkeys" in str(v[1]))
+        nreads = 0
+        for (_p, st) in all_paths(evl):
+            reads = set()
+            for e in st.events:
+                for a in list(e.args) + list(e.kwargs.values()) + ([e.value] if e.value is not None else []):
+                    for x in subterms(a):
+                        if x == ("idx", TABLE, CH):
+                            reads.add(id(e.node))
+                            node = e.node
+            if not reads:
+                continue
+            nreads += 1
+            guarded = (("cmp", "in", CH, TABLE), True) in st.cond
+            ok = guarded or pre
+            ob.site(fld, node, "per-target request list read only if the target has one", guarded=guarded, prepopulated=pre)
+            if not ok:
+                ob.violation(fld, node, "_list_done reads self._to_send[channel], but that entry is only created by the target's first 'send' request: with a progress "
+                                        "callback an idle re-sync (a target that requests nothing) fails with KeyError instead of completing",
+                             construct="_to_send[channel] unguarded")
+        has_cb = any(t == ("sym", "self._callback") for (_p, st) in all_paths(evl) for (t, _v) in st.cond)
+        ob.site(fld, fld.node, "list_done handler tolerates targets without requests", unguarded_reads=nreads, reports_to_callback=has_cb)
+
     with ctx.obligation("C17.h", "links-per-target") as ob:
         # _links is collected once and replayed to every target: it must not be consumed
         muts = []
